@@ -95,16 +95,20 @@ func TestVerifC19(t *testing.T) {
 	gr := schema.GroupResource{Group: v1alpha4.GroupName, Resource: "rulesets"}
 
 	patchErrors := map[string]func(n int) error{
-		"status-ok":                   func(int) error { return nil },
-		"status-error-not-found":      func(int) error { return errors2.NewNotFound(gr, "x") },
-		"status-error-conflict-once":  func(n int) error { return c19If(n == 1, error(errors2.NewConflict(gr, "x", errors.New("c"))), nil) },
-		"status-error-forbidden":      func(int) error { return errors2.NewForbidden(gr, "x", errors.New("f")) },
-		"status-error-internal":       func(int) error { return errors2.NewInternalError(errors.New("i")) },
-		"plain-error":                 func(int) error { return errors.New("connection reset by peer") },
-		"url-error":                   func(int) error { return &url.Error{Op: "Patch", URL: "https://k8s", Err: errors.New("dial tcp: refused")} },
-		"context-deadline":            func(int) error { return context.DeadlineExceeded },
-		"wrapped-status-error":        func(int) error { return fmt.Errorf("wrapped: %w", errors2.NewNotFound(gr, "x")) },
-		"unprocessable-then-get-fail": func(int) error { return errors2.NewInvalid(schema.GroupKind{Group: gr.Group, Kind: "RuleSet"}, "x", nil) },
+		"status-ok":                  func(int) error { return nil },
+		"status-error-not-found":     func(int) error { return errors2.NewNotFound(gr, "x") },
+		"status-error-conflict-once": func(n int) error { return c19If(n == 1, error(errors2.NewConflict(gr, "x", errors.New("c"))), nil) },
+		"status-error-forbidden":     func(int) error { return errors2.NewForbidden(gr, "x", errors.New("f")) },
+		"status-error-internal":      func(int) error { return errors2.NewInternalError(errors.New("i")) },
+		"plain-error":                func(int) error { return errors.New("connection reset by peer") },
+		"url-error": func(int) error {
+			return &url.Error{Op: "Patch", URL: "https://k8s", Err: errors.New("dial tcp: refused")}
+		},
+		"context-deadline":     func(int) error { return context.DeadlineExceeded },
+		"wrapped-status-error": func(int) error { return fmt.Errorf("wrapped: %w", errors2.NewNotFound(gr, "x")) },
+		"unprocessable-then-get-fail": func(int) error {
+			return errors2.NewInvalid(schema.GroupKind{Group: gr.Group, Kind: "RuleSet"}, "x", nil)
+		},
 	}
 
 	for class, pe := range patchErrors {
@@ -201,8 +205,8 @@ func TestVerifC19(t *testing.T) {
 
 	// tombstones and foreign objects handed to the handlers by the informer
 	for class, obj := range map[string]any{
-		"tombstone":           cache.DeletedFinalStateUnknown{Key: "verif/a", Obj: c19Object("a", "v1")},
-		"tombstone-nil":       cache.DeletedFinalStateUnknown{Key: "verif/a"},
+		"tombstone":             cache.DeletedFinalStateUnknown{Key: "verif/a", Obj: c19Object("a", "v1")},
+		"tombstone-nil":         cache.DeletedFinalStateUnknown{Key: "verif/a"},
 		"ruleset-without-rules": &v1alpha4.RuleSet{Spec: v1alpha4.RuleSetSpec{AuthClassName: DefaultClass}},
 	} {
 		repo := &c19Repo{patchErr: func(int) error { return nil }}
